@@ -137,7 +137,10 @@ def rd_data(w, ev, slot, t, ref):
     i = ev.get('i', 0) % ref.n(ax)
     dense = not ev.get('sparse')
     w.case('accessor.data', 'data', slot, ax=ax, dense=dense)
-    got = t.data(ref.ids[ax][i], axis=AXNAME[ax], dense=dense)
+    if ev.get('pos'):
+        got = t.data(ref.ids[ax][i], AXNAME[ax], dense)
+    else:
+        got = t.data(ref.ids[ax][i], axis=AXNAME[ax], dense=dense)
     d = _cmp_data_item(got, ref.vec(ax, i))
     if d:
         w.fail('accessor.data', 'data(%r, %s): %s' % (ref.ids[ax][i],
@@ -194,6 +197,8 @@ def rd_iter(w, ev, slot, t, ref):
     w.case('accessor.iter', 'iter', slot, ax=ax, dense=dense)
     if ev.get('dunder') and ax == 1 and dense:
         gen = iter(t)
+    elif ev.get('pos'):
+        gen = t.iter(dense, AXNAME[ax])
     else:
         gen = t.iter(dense=dense, axis=AXNAME[ax])
     _consume(w, 'accessor.iter', 'iter(%s)' % AXNAME[ax], gen,
@@ -206,6 +211,7 @@ def rd_iter_data(w, ev, slot, t, ref):
     dense = not ev.get('sparse')
     w.case('accessor.iter', 'iter_data', slot, ax=ax, dense=dense)
     _consume(w, 'accessor.iter', 'iter_data(%s)' % AXNAME[ax],
+             t.iter_data(dense, AXNAME[ax]) if ev.get('pos') else
              t.iter_data(dense=dense, axis=AXNAME[ax]),
              [ref.vec(ax, i) for i in range(ref.n(ax))], _cmp_data_item)
     return 'iter_data'
@@ -220,7 +226,8 @@ def rd_pairwise(w, ev, slot, t, ref):
            diag=diag)
     _consume(w, 'accessor.pairwise',
              'iter_pairwise(%s, tri=%s, diag=%s)' % (AXNAME[ax], tri, diag),
-             t.iter_pairwise(axis=AXNAME[ax], tri=tri, diag=diag),
+             t.iter_pairwise(True, AXNAME[ax], tri, diag) if ev.get('pos')
+             else t.iter_pairwise(axis=AXNAME[ax], tri=tri, diag=diag),
              _items_pairwise(ref, ax, tri, diag), _cmp_pair_item)
     return 'pairwise'
 
@@ -239,7 +246,7 @@ def rd_nonzero(w, ev, slot, t, ref):
 def rd_sum(w, ev, slot, t, ref):
     axis = ev.get('ax', 2) % 3
     w.case('summary.sum', 'sum', slot, ax=axis)
-    got = t.sum(axis=AX3[axis])
+    got = t.sum(AX3[axis]) if ev.get('pos') else t.sum(axis=AX3[axis])
     if axis == 2:
         want = ref.m.sum()
     else:
@@ -293,7 +300,8 @@ def rd_minmax(w, ev, slot, t, ref):
     else:
         want = np.array([f(v[v != 0]) for v in
                          (ref.vec(axis, i) for i in range(ref.n(axis)))])
-    got = getattr(t, which)(axis=AX3[axis])
+    got = getattr(t, which)(AX3[axis]) if ev.get('pos') else \
+        getattr(t, which)(axis=AX3[axis])
     if not np.array_equal(np.asarray(got, dtype=float),
                           np.asarray(want, dtype=float)):
         w.fail('summary.minmax', '%s(%s) = %r, expected %r over non-zero '
@@ -308,7 +316,8 @@ def rd_nonzero_counts(w, ev, slot, t, ref):
     binary = not ev.get('nonbinary')
     w.case('summary.nonzero_counts', 'nonzero_counts', slot, ax=axis,
            binary=binary)
-    got = t.nonzero_counts(AX3[axis], binary=binary)
+    got = t.nonzero_counts(AX3[axis], binary) if ev.get('pos') else \
+        t.nonzero_counts(axis=AX3[axis], binary=binary)
     src = (ref.m != 0).astype(float) if binary else ref.m
     want = np.array([src.sum()]) if axis == 2 else src.sum(axis=1 - axis)
     if not _num_eq(w, got, want, ref.m):
